@@ -148,8 +148,10 @@ class Report:
             'wall_s': round(wall, 3), 'violations': len(violations), 'exit_code': code,
         }
         if not partial:
-            os.makedirs(os.path.join(ROOT, 'evidence'), exist_ok=True)
-            with open(os.path.join(ROOT, 'evidence', f'{pid}.json'), 'w') as f:
+            # runs against scratch copies / seeded changes (kill suite, seed evaluation) must not overwrite the committed evidence
+            edir = os.path.join(ROOT, os.environ.get('VERIF_EVIDENCE_DIR', 'evidence'))
+            os.makedirs(edir, exist_ok=True)
+            with open(os.path.join(edir, f'{pid}.json'), 'w') as f:
                 json.dump(evidence, f, indent=1, default=str)
         print(f'{pid} tier={self.tier}: obligations={n_obl} discharged={n_dis} failed={len([o for o in obligations if o["status"] == "failed"])} '
               f'undecided={len(undecided)} bounded_evals={evidence["coverage"]["evaluations"]} violations={len(violations)} '
